@@ -14,7 +14,7 @@ import vcommon as V
 PROP = "coq/C01/Properties_C01.v"
 EXTRACT = "coq/C01/Extract_C01.v"
 DRIVER = "props/C01/driver.ml"
-PROGS = {"vsim": ["harness/vsim_main.cpp"]}
+PROGS = {"vsim_c01": ["props/C01/vsim_c01.cpp"]}
 TOL_TIE = 1e-9
 TOL_FD = 2e-6
 H1 = 2.0 ** -11
@@ -169,6 +169,52 @@ def config_text(case):
     return "\n".join(L)
 
 
+def cxx_order(v):
+    """colvar::init_components walks global_cvc_map (a std::map keyed by the configuration keyword): position of every
+    configured component in colvar::cvcs = stable sort of the configuration order by keyword (byte order)"""
+    idx = sorted(range(len(v["cvcs"])), key=lambda j: KINDS[v["cvcs"][j]["kind"]][0])
+    pos = [0] * len(idx)
+    for p_, j in enumerate(idx):
+        pos[j] = p_
+    return pos
+
+
+def event_lines(case):
+    """script calls for the history of run-time modifications (modelled events and raw script lines)"""
+    L = []
+    for e in case.get("events", []):
+        v = case["vars"][e["var"]]
+        pos = cxx_order(v)
+        if e["type"] == "mod":
+            # one keyword per call (a configuration string holds one keyword per line; the scenario is line-based)
+            words = []
+            if e.get("coeff") is not None:
+                words.append("componentCoeff %r" % e["coeff"])
+            if e.get("exp") is not None:
+                words.append("componentExp %d" % e["exp"])
+            for wd in words:
+                confs = [""] * len(v["cvcs"])
+                confs[pos[e["comp"]]] = wd
+                L.append("scriptu cv|colvar|v%d|modifycvcs|%s" % (e["var"], " ".join('"%s"' % c for c in confs)))
+        else:
+            fl = [0] * len(v["cvcs"])
+            for j, f in enumerate(e["flags"]):
+                fl[pos[j]] = 1 if f else 0
+            L.append("scriptu cv|colvar|v%d|cvcflags|%s" % (e["var"], " ".join(str(f) for f in fl)))
+    return L + list(case.get("script", []))
+
+
+def n_event_steps(case):
+    """steps run before the base step because of the history: one warm-up step (the components are in use when they are
+    modified) and one step after every script call"""
+    n = len(event_lines(case))
+    return n + 1 if n else 0
+
+
+def npre_steps(case):
+    return len(case.get("presteps", [])) + n_event_steps(case)
+
+
 def fd_coords(case):
     """(atom, axis) pairs to differentiate: every atom the configuration names"""
     return [(a, k) for a in case["touched"] for k in range(3)]
@@ -193,6 +239,11 @@ def scenario(case, tag, with_fd=True):
     L += ["fresh", "config EOF", config_text(case), "EOF"]
     if case.get("setstep") is not None:
         L.append("setstep %d" % case["setstep"])
+    ev = event_lines(case)
+    if ev:
+        L += ["show cv 0 bias 0 atomf 0", "step"]
+        for ln in ev:
+            L += [ln, "step"]
     for pre in case.get("presteps", []):      # history biases: steps at other positions first
         L.append("show cv 1 bias 0 atomf 0")
         for i, p in pre:
@@ -200,7 +251,7 @@ def scenario(case, tag, with_fd=True):
         L.append("step")
         for i, (m, q, p) in enumerate(at):
             L.append("pos %d %s %s %s" % (i + 1, hx(p[0]), hx(p[1]), hx(p[2])))
-    L += ["show cv 1 bias 1 atomf 1", "step", "show cv 0 bias 0 atomf 0"]
+    L += ["show cv 1 bias 1 atomf 1", "step", "show cv 1 bias 0 atomf 0"]
     if with_fd:
         for (a, k) in fd_coords(case):
             p = list(at[a][2])
@@ -295,8 +346,8 @@ def model_line(case, res=None):
             mvars.append(v)
     t.append(str(len(mvars)))
     for v in mvars:
-        per = var_period(v)
-        t += [hx(v["width"]), "1" if per else "0", hx(per), str(len(v["cvcs"]))]
+        # the model's init_var computes linear / homogeneous / periodic / period from the components as configured
+        t += [hx(v["width"]), str(len(v["cvcs"]))]
         for c in v["cvcs"]:
             pr = c.get("params", {})
             t += [hx(c.get("coeff", 1.0)), str(c.get("exp", 1)), c["kind"]]
@@ -318,10 +369,11 @@ def model_line(case, res=None):
             t.append(str(len(c["groups"])))
             for g in c["groups"]:
                 t += group_tokens(g)
+            t.append(hx(v["period"] if v.get("period") else PERIODIC.get(k, 0.0)))      # the component's own period
     t.append(str(len(case["biases"])))
     pre = []
     if res is not None:
-        pre = [st["cv"] for st in res["steps"][:len(case.get("presteps", []))]]
+        pre = [st["cv"] for st in res["steps"][n_event_steps(case):npre_steps(case)]]
     for b in case["biases"]:
         if b["type"] == "meta":
             # one hill, deposited at the last pre-step (step 1000): centre = the variable values printed there
@@ -373,6 +425,15 @@ def model_line(case, res=None):
             t += ["walls", hx(k), hx(lk), hx(uk), "1" if hl else "0", "1" if hu else "0", str(len(b["terms"]))]
             for (i, lo, up) in b["terms"]:
                 t += [str(vmap[i][0]), hx(lo), hx(up)]
+    # history of run-time modifications (component indices in configuration order, as in the model's lists)
+    evs = case.get("events", [])
+    t.append(str(len(evs)))
+    for e in evs:
+        if e["type"] == "mod":
+            t += ["M", str(vmap[e["var"]][0]), str(e["comp"]), "1" if e.get("coeff") is not None else "0", hx(e.get("coeff") or 0.0),
+                  "1" if e.get("exp") is not None else "0", str(e.get("exp") or 0)]
+        else:
+            t += ["F", str(vmap[e["var"]][0]), str(len(e["flags"]))] + ["1" if f else "0" for f in e["flags"]]
     return " ".join(t)
 
 
@@ -841,7 +902,103 @@ def gen_case(r, kinds, opts):
             b = {"type": "abmd", "k": r.choice([1.0, 2.0, 0.5, 10.0]), "dec": dec, "stop": -1.0e6 if dec else 1.0e6, "terms": [(i, None)]}
             case["presteps"] = [disp()]
         case["biases"][r.randrange(len(case["biases"]))] = b
+    if opts.get("events") and r.random() < opts["events"]:
+        add_history(r, case, n_atoms, opts)
     return case
+
+
+def add_history(r, case, n_atoms, opts):
+    """a history of run-time modifications of the superposition of one scalar variable (script interface):
+    modifycvcs componentCoeff / componentExp on components in use, cvcflags.  case["vars"] stays the configuration as
+    parsed (colvar::init computes linear / homogeneous / periodic from it, once); case["events"] is the history.
+    Not combined with history-dependent biases (their pre-steps define a frozen state of their own)."""
+    if case.get("presteps") or any(b["type"] in ("meta", "abmd") for b in case["biases"]):
+        return
+    cand = [i for i, v in enumerate(case["vars"]) if not v.get("vec")]
+    if not cand:
+        return
+    i = r.choice(cand)
+    v = case["vars"][i]
+    if any(c["kind"] in PERIODIC for c in v["cvcs"]) and \
+       any(b["type"] != "harmonic" and i in [t[0] for t in b["terms"]] for b in case["biases"]):
+        return          # walls / linear / histogram on a variable whose periodic flag may go stale: harmonic only
+    if r.random() < 0.6:
+        # parsed as a linear (and mostly homogeneous) superposition: the flags are on when the history starts
+        for c in v["cvcs"]:
+            c["exp"] = 1
+            if r.random() < 0.7:
+                c["coeff"] = r.choice([1.0, 1.0, -1.0])
+    if len(v["cvcs"]) == 1 and r.random() < 0.4:
+        # a second component, so that cvcflags has something to switch
+        for _ in range(20):
+            kinds = [k for k in KINDS if k not in ("distanceVec", "distancePairs", "rmsd") and k not in PERIODIC]
+            c = gen_cvc(r, r.choice(kinds), n_atoms, opts)
+            if c is not None and cvc_guard(case, c):
+                if r.random() < 0.6:
+                    c["exp"] = 1
+                v["cvcs"].append(c)
+                break
+    n = len(v["cvcs"])
+    events = []
+    for _ in range(r.choice([1, 1, 2, 3])):
+        if n >= 2 and r.random() < 0.3:
+            fl = [r.random() < 0.6 for _ in range(n)]
+            if not any(fl):
+                fl[r.randrange(n)] = True
+            events.append({"type": "flags", "var": i, "flags": fl})
+        else:
+            j = r.randrange(n)
+            kind = v["cvcs"][j]["kind"]
+            exps = [2, 2, 3, 1] + ([-1, -2] if kind in POSITIVE else [])
+            m = r.random()
+            e = {"type": "mod", "var": i, "comp": j,
+                 "coeff": r.choice([2.0, -1.0, 0.5, 1.5, -0.25, 1.0]) if m < 0.4 else None,
+                 "exp": r.choice(exps) if m >= 0.4 else None}
+            events.append(e)
+    case["events"] = events
+    case["touched"] = touched_atoms(case)
+
+
+def effective_params(case):
+    """live (coeff, exp, active) of every component after the history (python mirror, for labels only)"""
+    out = [[[c.get("coeff", 1.0), c.get("exp", 1), True] for c in v["cvcs"]] for v in case["vars"]]
+    for e in case.get("events", []):
+        if e["type"] == "mod":
+            t = out[e["var"]][e["comp"]]
+            if e.get("coeff") is not None:
+                t[0] = e["coeff"]
+            if e.get("exp") is not None:
+                t[1] = e["exp"]
+        else:
+            for t, f in zip(out[e["var"]], e["flags"]):
+                t[2] = bool(f)
+    return out
+
+
+def history_label(case):
+    """coverage label of a history: which flags of colvar::init are stale after it"""
+    if not case.get("events"):
+        return None
+    lab = set()
+    eff = effective_params(case)
+    for e in case["events"]:
+        lab.add("cvcflags" if e["type"] == "flags" else "modifycvcs")
+    for v, ps in zip(case["vars"], eff):
+        lin0 = all(c.get("exp", 1) == 1 for c in v["cvcs"])
+        hom0 = lin0 and all(abs(abs(c.get("coeff", 1.0)) - 1.0) < 1e-10 for c in v["cvcs"])
+        lin1 = all(p_[1] == 1 for p_ in ps)
+        hom1 = lin1 and all(abs(abs(p_[0]) - 1.0) < 1e-10 for p_ in ps)
+        if lin0 and not lin1:
+            lab.add("stale-linear")
+        if hom0 and not hom1:
+            lab.add("stale-homogeneous")
+        if not lin0 and lin1:
+            lab.add("became-linear")
+        if var_period(v) and not hom1:
+            lab.add("stale-periodic")
+        if not all(p_[2] for p_ in ps):
+            lab.add("component-off")
+    return "history:" + "+".join(sorted(lab))
 
 
 def case_key(case):
@@ -883,6 +1040,8 @@ def parse_vsim(out, ncases):
             cur = None
         elif w[0] == "CONFIG":
             cur["config"] = ln
+        elif w[0] == "SCRIPT":
+            cur.setdefault("script", []).append(ln.strip())
         elif w[0] == "STEP":
             cur["steps"].append({"err": ln, "cv": {}, "atomf": {}, "bias": {}})
         elif w[0] == "ENERGY" and cur["steps"]:
@@ -942,7 +1101,7 @@ def fd_check(case, res):
     """finite-difference oracle on the implementation alone.
     returns (status, detail): status in ok | ambiguous | fail"""
     steps = res["steps"]
-    npre = len(case.get("presteps", []))
+    npre = npre_steps(case)
     base = steps[npre]
     coords = fd_coords(case)
     fd_steps = steps[npre + 1:]
@@ -975,8 +1134,20 @@ def fd_check(case, res):
             # the two step sizes disagree: too close to a singular geometry / a kink for a verdict
             return "ambiguous", "finite differences at the two step sizes disagree (atom %d axis %d: %r vs %r)" % (a + 1, k, d1, d2)
         err = abs(f + rich)
-        if err > TOL_FD * scale + noise + 0.05 * est:
-            if noise > 1e-4 * scale:
+        # rounding of a variable's own value: a variable of size |x| that moves by dx between the two displaced steps carries a
+        # relative error of about ulp(x)/dx into the difference quotient (a huge constant term, e.g. the cube of an angle
+        # of a dummy atom, next to a term that depends on the coordinate)
+        relx = 0.0
+        for nm, x2 in (fd_steps[4 * n + 2].get("cv") or {}).items():
+            x3 = (fd_steps[4 * n + 3].get("cv") or {}).get(nm)
+            if x2 and x3 and len(x2) == len(x3):
+                for p2, p3 in zip(x2, x3):
+                    dx = abs(p2 - p3)
+                    if dx > 0.0 and max(abs(p2), abs(p3)) >= 1.0e4:      # only where the offset is huge
+                        relx = max(relx, 16 * 2.0 ** -52 * max(abs(p2), abs(p3)) / dx)
+        xnoise = min(relx, 1.0) * abs(rich)
+        if err > TOL_FD * scale + noise + xnoise + 0.05 * est:
+            if noise + xnoise > 1e-4 * scale:
                 # the rounding of the energy (or of a variable amplified by dE/dxi) swamps the difference quotient
                 return "ambiguous", "finite differences cannot resolve forces of this size (rounding noise %.3g, scale %.3g)" % (noise, scale)
             if worst is None or err / scale > worst[0]:
@@ -997,7 +1168,7 @@ def walls_ambiguous(case, base, res=None):
                 return True
         if b["type"] == "abmd" and res is not None:
             i = b["terms"][0][0]
-            pre = [st["cv"] for st in res["steps"][:len(case.get("presteps", []))]]
+            pre = [st["cv"] for st in res["steps"][n_event_steps(case):npre_steps(case)]]
             x = base["cv"].get("v%d" % i)
             try:
                 ref = abmd_ref(b, [p["v%d" % i][0] for p in pre])
@@ -1019,7 +1190,7 @@ def walls_ambiguous(case, base, res=None):
 
 def signature(case):
     ks = sorted(set(c["kind"] for v in case["vars"] for c in v["cvcs"])) if "vars" in case else [case.get("name", "raw")]
-    return "fd:" + ":".join(ks)
+    return "fd:" + ("history:" if case.get("events") or case.get("script") else "") + ":".join(ks)
 
 
 def shrink_fd(vsim, case, run_one):
@@ -1076,7 +1247,8 @@ def gen_unmodelled(r, n):
                   "cell_groupCoord", "cell_hBond", "cell_poly_two_biases", "cell_center_distanceVec", "cell_meta_nogrid",
                   "center_distancePairs", "rot_distancePairs", "distancePairs_linear",
                   "center1_distanceVec", "center1_fit_distanceDir", "center1_distancePairs",
-                  "rmsd_perm", "lincomb_coordNum", "lincomb_selfCoordNum", "distanceZ2_period"]
+                  "rmsd_perm", "lincomb_coordNum", "lincomb_selfCoordNum", "distanceZ2_period",
+                  "ev_forceNoPBC", "ev_period", "ev_distanceVec_coeff", "ev_rmsd_exp", "ev_dihedral_coeff", "ev_distancePairs_coeff"]
     names = names + cell_names
     only = os.environ.get("C01_ONLY")          # debugging aid: restrict the sweep to kinds containing this text
     if only:
@@ -1095,6 +1267,7 @@ def gen_unmodelled(r, n):
         harm = "harmonic {\n  colvars v0\n  centers %r\n  forceConstant %r\n}" % (harm_c, r.choice([1.0, 2.0, 0.5]))
         cell = None
         pre = None
+        script = None
         touched = sorted(set(ids + oth2))
         fitopts = "centerToReference on\n      rotateToReference on\n      refPositions %s" % refpos_str(r, 4)
         if name == "rot_distance":
@@ -1228,6 +1401,35 @@ def gen_unmodelled(r, n):
             cell = (8.0, 8.0, 8.0)
             conf = ("colvar {\n  name v0\n  distanceZ {\n    main {\n      atomNumbers %s\n    }\n    ref {\n      atomNumbers %s\n    }\n    axis (0.0, 0.0, 1.0)\n    period 8.0\n  }\n}\n"
                     "harmonic {\n  colvars v0\n  centers 3.0\n  forceConstant 2.0\n}" % (ids_str(ids[:2]), ids_str(oth2)))
+        elif name in ("ev_forceNoPBC", "ev_period", "ev_distanceVec_coeff", "ev_rmsd_exp", "ev_dihedral_coeff", "ev_distancePairs_coeff"):
+            # histories of run-time modifications outside the model (FD only): other live-modifiable parameters of
+            # cvc::init (forceNoPBC, period/wrapAround), coefficients of vector-valued variables, exponent of rmsd,
+            # a periodic variable made non-homogeneous at run time (its periodic flag goes stale)
+            touched = sorted(set(ids[:2] + oth2))
+            d2 = "  distance {\n    group1 {\n      atomNumbers %s\n    }\n    group2 {\n      atomNumbers %s\n    }\n  }\n" % (ids_str(ids[:2]), ids_str(oth2))
+            if name == "ev_forceNoPBC":
+                wrap = True
+                conf = "colvar {\n  name v0\n%s}\n%s" % (d2, harm)
+                script = ['scriptu cv|colvar|v0|modifycvcs|"forceNoPBC on"'] + (['scriptu cv|colvar|v0|modifycvcs|"forceNoPBC off"'] if r.random() < 0.3 else [])
+            elif name == "ev_period":
+                conf = ("colvar {\n  name v0\n  distanceZ {\n    main {\n      atomNumbers %s\n    }\n    ref {\n      atomNumbers %s\n    }\n    axis (0.0, 0.6, 0.8)\n%s  }\n}\n"
+                        "harmonic {\n  colvars v0\n  centers 0.7\n  forceConstant 2.0\n}" % (ids_str(ids[:2]), ids_str(oth2), r.choice(["", "    period 6.0\n"])))
+                script = ['scriptu cv|colvar|v0|modifycvcs|"period %r"' % r.choice([3.0, 5.0, 2.5])] + (['scriptu cv|colvar|v0|modifycvcs|"wrapAround 1.0"'] if r.random() < 0.5 else [])
+            elif name == "ev_distanceVec_coeff":
+                conf = "colvar {\n  name v0\n  distanceVec {\n    group1 {\n      atomNumbers %s\n    }\n    group2 {\n      atomNumbers %s\n    }\n  }\n}\nharmonic {\n  colvars v0\n  centers (1.0, 0.5, -0.5)\n  forceConstant 2.0\n}" % (ids_str(ids[:2]), ids_str(oth2))
+                script = ['scriptu cv|colvar|v0|modifycvcs|"componentCoeff %r"' % r.choice([2.0, -0.5, 1.5])]
+            elif name == "ev_distancePairs_coeff":
+                conf = "colvar {\n  name v0\n  distancePairs {\n    group1 {\n      atomNumbers %s\n    }\n    group2 {\n      atomNumbers %s\n    }\n  }\n}\nharmonic {\n  colvars v0\n  centers (1.0, 2.0, 3.0, 4.0)\n  forceConstant 2.0\n}" % (ids_str(ids[:2]), ids_str(oth2))
+                script = ['scriptu cv|colvar|v0|modifycvcs|"componentCoeff %r"' % r.choice([2.0, -0.5, 1.5])]
+            elif name == "ev_rmsd_exp":
+                touched = sorted(ids)
+                conf = "colvar {\n  name v0\n  rmsd {\n    atoms {\n      atomNumbers %s\n    }\n    refPositions %s\n  }\n}\n%s" % (ids_str(ids), refpos_str(r, 4), harm)
+                script = ['scriptu cv|colvar|v0|modifycvcs|"componentExp %d"' % r.choice([2, 3, -1])] + (['scriptu cv|colvar|v0|modifycvcs|"componentCoeff 0.5"'] if r.random() < 0.5 else [])
+            else:
+                touched = sorted(ids)
+                conf = ("colvar {\n  name v0\n  dihedral {\n    group1 {\n      atomNumbers %d\n    }\n    group2 {\n      atomNumbers %d\n    }\n    group3 {\n      atomNumbers %d\n    }\n    group4 {\n      atomNumbers %d\n    }\n  }\n}\n"
+                        "harmonic {\n  colvars v0\n  centers 150.0\n  forceConstant 0.001\n}\nharmonicWalls {\n  colvars v0\n  lowerWalls -170.0\n  upperWalls 170.0\n  lowerWallConstant 0.01\n  upperWallConstant 0.02\n}" % tuple(i + 1 for i in ids))
+                script = ['scriptu cv|colvar|v0|modifycvcs|"componentCoeff %r"' % r.choice([2.0, 0.5, -1.5])] + (['scriptu cv|colvar|v0|modifycvcs|"componentExp 2"'] if r.random() < 0.4 else [])
         elif name == "dihedral_walls":
             touched = sorted(ids)
             conf = ("colvar {\n  name v0\n  dihedral {\n    group1 {\n      atomNumbers %d\n    }\n    group2 {\n      atomNumbers %d\n    }\n    group3 {\n      atomNumbers %d\n    }\n    group4 {\n      atomNumbers %d\n    }\n  }\n}\n"
@@ -1240,6 +1442,8 @@ def gen_unmodelled(r, n):
                     "  distanceZ {\n    componentCoeff -1.5\n    main {\n      atomNumbers %s\n    }\n    ref {\n      atomNumbers %s\n    }\n  }\n}\n%s\nlinear {\n  colvars v0\n  centers 0.0\n  forceConstant -0.5\n}"
                     % (ids_str(ids[:2]), ids_str(oth2), ids_str(ids[2:]), ids_str(oth2), harm))
         c = raw_case(r, full_name, na, conf, touched, cell=cell)
+        if script:
+            c["script"] = script
         if wrap:
             # a periodic cell in which some of the named atoms sit in other images: centre / pair differences wrap
             c["cell"] = tuple(r.choice([8.0, 10.0, 12.0]) for _ in range(3))
@@ -1290,7 +1494,7 @@ def gen_unmodelled(r, n):
 # ------------------------------------------------------------------------------------------------
 def setup():
     V.extract_model("C01", EXTRACT, DRIVER, ["ocaml/fops.ml"])
-    V.build_prog("vsim", PROGS["vsim"])
+    V.build_prog("vsim_c01", PROGS["vsim_c01"])
 
 
 def load_corpus():
@@ -1314,15 +1518,18 @@ def untuple(c):
 
 def compare_case(run, case, res, mline, mout):
     """tie: implementation vs model on the base step"""
-    comp = ":".join(sorted(set(c["kind"] for v in case["vars"] for c in v["cvcs"])))
+    comp = ("history:" if case.get("events") else "") + ":".join(sorted(set(c["kind"] for v in case["vars"] for c in v["cvcs"])))
     if res is None or res.get("config") is None or "err=ok" not in res["config"]:
         run.mismatch(comp, {"config": config_text(case)}, res and res.get("config"), "the model accepts this configuration")
         return False
-    npre = len(case.get("presteps", []))
+    npre = npre_steps(case)
     if len(res["steps"]) <= npre or "energy" not in res["steps"][npre]:
         run.mismatch(comp, {"config": config_text(case)}, "no step output (rc=%s %s)" % (res.get("rc"), res.get("stderr", "")), mout)
         return False
     base = res["steps"][npre]
+    if any("err=ok" not in ln for ln in res.get("script", [])):
+        run.mismatch(comp, {"config": config_text(case), "events": event_lines(case)}, "a script call of the history failed: %r" % res.get("script"), mout)
+        return False
     w = mout.split()
     if not w or w[0] != "E":
         run.mismatch(comp, {"line": mline}, base.get("energy"), mout)
@@ -1343,6 +1550,12 @@ def compare_case(run, case, res, mline, mout):
             n = len(v["cvcs"][0]["groups"][0]["ids"]) * len(v["cvcs"][0]["groups"][1]["ids"])
         elif v.get("vec"):
             n = 3
+        per = var_period(v) if n == 1 else 0.0
+        if per and x and len(x) == 1 and case.get("events"):
+            # colvar::wrap brings the value of a variable flagged periodic into one period; the model's value is the
+            # plain sum (the restraint metric is periodic in both): compare modulo the period
+            d_ = (x[0] - mv[mi]) / per
+            x = [x[0] - round(d_) * per]
         if not x or len(x) != n or not all(close(a, b, TOL_TIE) for a, b in zip(x, mv[mi:mi + n])):
             bad.append("value v%d impl=%r model=%r" % (i, x, mv[mi:mi + n]))
         mi += n
@@ -1382,9 +1595,9 @@ def check(run):
     if st is None:
         return
     model, exes = st
-    vsim = exes["vsim"]
+    vsim = exes["vsim_c01"]
 
-    opts = {"dummy": True, "center": True, "poly": True, "cell": True, "nofitgrad": True, "vec": 0.12, "pairs": 0.08, "hist": 0.2, "histr": 0.1, "biases": ["harmonic", "harmonic", "walls", "linear"]}
+    opts = {"dummy": True, "center": True, "poly": True, "cell": True, "nofitgrad": True, "vec": 0.12, "pairs": 0.08, "hist": 0.2, "histr": 0.1, "events": 0.15, "biases": ["harmonic", "harmonic", "walls", "linear"]}
     kinds = T1 + T1 + T2
     ncases = 500 if quick else 40000
     cases = load_corpus()
@@ -1403,6 +1616,13 @@ def check(run):
     for k in T1 + T2:
         for _ in range(2 if quick else 20):
             c = gen_case(r, [k], plain)
+            if c:
+                cases.append(c)
+    # histories of run-time modifications (modifycvcs componentCoeff / componentExp, cvcflags) on every kind of component
+    hopts = dict(opts, events=1.0, hist=0.0, vec=0.0, pairs=0.0)
+    for k in T1 + T2:
+        for _ in range(2 if quick else 60):
+            c = gen_case(r, [k], hopts)
             if c:
                 cases.append(c)
     while len(cases) < ncases:
@@ -1440,6 +1660,8 @@ def check(run):
         run.dist("kinds:" + "+".join(sorted(set(c["kind"] for v in case["vars"] for c in v["cvcs"]))))
         for b in case["biases"]:
             run.dist("bias:" + b["type"])
+        if history_label(case):
+            run.dist(history_label(case))
         if res is not None and not res.get("done") and res.get("config") and "err=ok" in res["config"]:
             run.violation("crash:" + signature(case)[3:], "the engine simulator died (rc=%s) on a generated configuration: %s" % (res.get("rc"), res.get("stderr", "")[-200:]),
                           {"kind": "scenario", "scenario": scenario(case, "0")})
@@ -1448,7 +1670,7 @@ def check(run):
         tie_ok = compare_case(run, case, res, ml, mo)
         nontriv = False
         if res is not None and res.get("steps"):
-            npre = len(case.get("presteps", []))
+            npre = npre_steps(case)
             if len(res["steps"]) > npre:
                 base = res["steps"][npre]
                 nontriv = any(abs(x) > 1e-9 for f in base["atomf"].values() for x in f)
@@ -1473,6 +1695,7 @@ def check(run):
                             if s2 != "fail":
                                 small, d2 = case, d
                             run.violation(signature(small), "the force on atom %(atom)d along %(axis)s is %(force)r but minus the finite-difference derivative of the reported energy is %(minus_dE_dx)r (relative error %(rel_err).3g)" % d2
+                                          + ((" after the run-time modifications " + "; ".join(event_lines(small))) if event_lines(small) else "")
                                           + " for: " + config_text(small).replace("\n", " ")[:300],
                                           {"kind": "fd", "case": small, "detail": d2})
                     else:
@@ -1487,7 +1710,7 @@ def check(run):
     # ---- finite-difference sweep over configurations the model does not cover (a few per kind in the quick tier)
     if True:
         ur = V.rng("C01-unmodelled")
-        ucases = gen_unmodelled(ur, 147 if quick else 6000)
+        ucases = gen_unmodelled(ur, 165 if quick else 6000)
         ures = run_vsim(vsim, ucases)
         for case, res in zip(ucases, ures):
             name = case["name"]
@@ -1498,12 +1721,15 @@ def check(run):
             if "err=ok" not in res["config"]:
                 run.dist("unmodelled-config-rejected:" + name)
                 continue
+            if any("err=ok" not in ln for ln in res.get("script", [])):
+                run.dist("unmodelled-script-rejected:" + name)
+                continue
             if not res.get("done"):
                 run.violation("crash:" + name, "the engine simulator died on an accepted configuration (%s)" % name,
                               {"kind": "scenario", "scenario": scenario(case, "0")})
                 continue
             s, d = fd_check(case, res)
-            npre = len(case.get("presteps", []))
+            npre = npre_steps(case)
             base = res["steps"][npre]
             nz = any(abs(x) > 1e-9 for f in base["atomf"].values() for x in f)
             run.count("unmodelled:" + name, s == "ok" and nz)
@@ -1525,12 +1751,12 @@ def replay(path):
     j = json.load(open(path))
     print(json.dumps(j, indent=1)[:4000])
     rp = j["replay"]
-    vsim = V.build_prog("vsim", PROGS["vsim"])
+    vsim = V.build_prog("vsim_c01", PROGS["vsim_c01"])
     if rp.get("kind") == "fd":
         case = rp["case"]
         res = run_vsim(vsim, [case])[0]
         print("config:\n" + config_text(case))
-        print("base step:", json.dumps(res["steps"][len(case.get("presteps", []))], indent=1)[:3000])
+        print("base step:", json.dumps(res["steps"][npre_steps(case)], indent=1)[:3000])
         print("finite-difference verdict:", fd_check(case, res))
         if "vars" in case:
             model = V.extract_model("C01", EXTRACT, DRIVER, ["ocaml/fops.ml"])
